@@ -17,7 +17,7 @@ for p in range(1,21):
         pid="C%02d"%p; sid="%s-%d"%(pid,c+offset)
         src="/tmp/seed-%s/%s/change%d"%(pid,outdir,c)
         dst="/verif/seeded/"+sid
-        if not os.path.isdir(src): continue
+        if not os.path.isdir(src) or sid not in needs: continue
         if os.path.isdir(dst): shutil.rmtree(dst)
         os.makedirs(dst)
         for f in ("patch.diff","RUN.txt","NOTES.md","demo_test.go"):
